@@ -8,7 +8,9 @@ The integer store paths of C03 that are not `convert_from_object` itself:
     `Recompiler._convert_funcarg_to_c` emits (recompiler.py:527); `_cffi_to_c__Bool` (7760).
     The overflow conditions, the instantiation list, the dispatch table and the
     return types are *not* written here: they come from
-    `Generated/IntMacros.lean`, regenerated from the source on every run.
+    `Generated/IntMacros.lean`; the if/else chain of `_cffi_to_c__Bool` and the emitted
+    error check (obtained by running the code generator) come from
+    `Generated/CastExprs.lean`; both are regenerated on every run.
   * callback results: `convert_from_object_fficallback` (6086) and the error path of
     `general_invoke_callback` (6189), for libffi callbacks (`encode = true`) and
     `extern "Python"` (`encode = false`).
@@ -18,6 +20,7 @@ indicator; the caller compares with `(type)-1`.
 -/
 import CffiVerif.Model.CInt
 import CffiVerif.Generated.IntMacros
+import CffiVerif.Generated.CastExprs
 
 namespace CffiVerif.IntPaths
 open CffiVerif.CInt
@@ -62,55 +65,77 @@ def toCUnsigned (SIZE : Nat) (v : Int) : Except ErrKind (Int × Pending) :=
 def retBits (isSigned : Bool) (SIZE : Nat) : Option Nat :=
   ((if isSigned then IntMacros.signedFns else IntMacros.unsignedFns).find? (·.1 = SIZE)).map (·.2.1)
 
-/-- `_cffi_to_c_int(o, type)`: value of type `type` and the error indicator.
-`fatal` when the size is not dispatched (`Py_FatalError`) or when the function
-pointer type of _cffi_include.h and the backend's RETURNTYPE differ in width
-(then the ABI, not C, decides what is seen). -/
+/-- one arm of `_cffi_to_c_int(o, type)`: call the callee through the function pointer type of
+_cffi_include.h, then the two `(type)` casts.  `fatal` when that function pointer type and the
+backend's RETURNTYPE differ in width (then the ABI, not C, decides what is seen). -/
+def calleeResult (T : IntType) (c : Bool × Nat × Nat × Bool) (v : Int) : Except ErrKind (Int × Pending) :=
+  if retBits c.1 c.2.1 ≠ some c.2.2.1 then .error .fatal else
+  match (if c.1 then toCSigned c.2.1 v else toCUnsigned c.2.1 v) with
+  | .error e => .error e
+  | .ok (r, err) => .ok (T.wrap (wrap c.2.2.1 c.2.2.2 r), err)
+
+/-- `_cffi_to_c_int(o, type)`: value of type `type` and the error indicator; `fatal` when the
+size is not dispatched (`Py_FatalError`). -/
 def cffiToCInt (T : IntType) (v : Int) : Except ErrKind (Int × Pending) :=
   match IntMacros.dispatch.find? (·.1 = T.bytes) with
   | none => .error .fatal
-  | some (_, cu, cs) =>
-    let c := if T.readsSigned then cs else cu                 -- `((type)-1) > 0 ? … : …`
-    let (isSigned, SIZE, castBits, castSigned) := c
-    if retBits isSigned SIZE ≠ some castBits then .error .fatal else
-    match (if isSigned then toCSigned SIZE v else toCUnsigned SIZE v) with
-    | .error e => .error e
-    | .ok (r, err) =>
-      let seen := wrap castBits castSigned r                  -- through the function-pointer type
-      .ok (T.wrap seen, err)                                  -- the two `(type)` casts
+  | some (_, cu, cs) => calleeResult T (if T.readsSigned then cs else cu) v    -- `((type)-1) > 0 ? … : …`
 
-/-- `_cffi_to_c__Bool(obj)`: the `_Bool` returned and the error indicator -/
-def toCBool (v : Int) : Int × Pending :=
-  let (tmp, err) := myAsLongLong v
-  if tmp = 0 then (0, err)
-  else if tmp = 1 then (1, err)
-  else match err with
-    | some e => (1, some e)            -- `(_Bool)-1`
-    | none => (1, some .overflow)      -- `(_Bool)_convert_overflow(obj, "_Bool")`
+/-- `_cffi_to_c__Bool(obj)`: the `_Bool` returned and the error indicator.  The if/else chain is
+`Generated.CastExprs.toCBoolBody`, extracted from the source; `_convert_overflow` returns -1 and
+sets OverflowError unless an exception is already pending. -/
+def toCBool (v : Int) : Except ErrKind (Int × Pending) :=
+  match convBy (CastExprs.toCBoolConv, false) v with
+  | .error e => .error e
+  | .ok (tmp, err) =>
+    let (r, called) := CastExprs.toCBoolBody (bv tmp) err.isSome (BitVec.ofInt 32 (-1))
+    .ok ((r.toNat : Int), if called then some (convertOverflow err) else err)
 
-/-- the code emitted for one integer argument: convert, then
-`if (x0 == (type)-1 && PyErr_Occurred()) return NULL;`.  Result: the object
-representation of the argument the C function is called with. -/
+/-- the check `Recompiler._convert_funcarg_to_c` emits after the conversion of an integer
+argument (`if (x0 == (type)-1 && PyErr_Occurred()) return NULL;`), as extracted from the code the
+generator really emits for each primitive (`Generated.CastExprs.argChecks`); `x0` has type `T` -/
+def argCheck (T : IntType) (x0 : Int) (err : Bool) : Bool :=
+  match T.kind, T.width with
+  | .bool, _ => CastExprs.argErrBool (BitVec.ofInt 8 x0) err
+  | .signed, .w8 => CastExprs.argErrS8 (BitVec.ofInt 8 x0) err
+  | .signed, .w16 => CastExprs.argErrS16 (BitVec.ofInt 16 x0) err
+  | .signed, .w32 => CastExprs.argErrS32 (BitVec.ofInt 32 x0) err
+  | .signed, .w64 => CastExprs.argErrS64 (BitVec.ofInt 64 x0) err
+  | .unsigned, .w8 => CastExprs.argErrU8 (BitVec.ofInt 8 x0) err
+  | .unsigned, .w16 => CastExprs.argErrU16 (BitVec.ofInt 16 x0) err
+  | .unsigned, .w32 => CastExprs.argErrU32 (BitVec.ofInt 32 x0) err
+  | .unsigned, .w64 => CastExprs.argErrU64 (BitVec.ofInt 64 x0) err
+  | _, _ => false
+
+/-- name of the generated check that applies to `T` -/
+def argCheckName (T : IntType) : String :=
+  match T.kind with
+  | .bool => "argErrBool"
+  | .signed => "argErrS" ++ toString T.bits
+  | .unsigned => "argErrU" ++ toString T.bits
+  | _ => ""
+
+/-- the code emitted for one integer argument: convert, then the emitted error check.
+Result: the object representation of the argument the C function is called with. -/
 def apiArg (T : IntType) (v : Int) : Except ErrKind (List UInt8) :=
+  let finish (x0 : Int) (err : Pending) : Except ErrKind (List UInt8) :=
+    if argCheck T x0 err.isSome then
+      match err with
+      | some e => .error e                   -- `return NULL` with the pending exception
+      | none => .error .fatal                -- (the check requires PyErr_Occurred())
+    else
+      match err with
+      | some _ => .error .systemError        -- the function is called with an exception set
+      | none => .ok (writeRaw x0 T.width)
   match T.kind with
   | .signed | .unsigned =>
     match cffiToCInt T v with
     | .error e => .error e
-    | .ok (x0, err) =>
-      match (if x0 = T.wrap (-1) then err else none) with
-      | some e => .error e
-      | none =>
-        match err with
-        | some _ => .error .systemError        -- the function is called with an exception set
-        | none => .ok (writeRaw x0 T.width)
+    | .ok (x0, err) => finish x0 err
   | .bool =>
-    let (x0, err) := toCBool v
-    match (if x0 = 1 then err else none) with   -- `(_Bool)-1` is 1
-    | some e => .error e
-    | none =>
-      match err with
-      | some _ => .error .systemError
-      | none => .ok (writeRaw x0 T.width)
+    match toCBool v with
+    | .error e => .error e
+    | .ok (x0, err) => finish x0 err
   | .char | .swchar => .error .typeError         -- `_cffi_to_c_char*`: an int is not a character
 
 /-! ### callback results -/
